@@ -44,7 +44,8 @@ func (c *c07Oracle) Check(w *World, o *Obs) []Violation {
 		return nil
 	}
 	st := o.Step
-	if st.Kind == "oauth2_start" && !o.errorOutcome() {
+	if _, delivered := o.sessPut("oauth2_state"); st.Kind == "oauth2_start" && delivered {
+		// (a start whose response failed may still have delivered its session changes)
 		asked := strings.Contains(o.Target, "rm=true")
 		if c.startRM[st.B] && !asked {
 			w.Stats.Reach["c07_plain_start_after_rm_start"]++
@@ -98,6 +99,42 @@ func (c *c07Oracle) Check(w *World, o *Obs) []Violation {
 					out = append(out, viol("C07", "dead_cookie_kept", "middleware", o,
 						fmt.Sprintf("a remember cookie that is %s was not deleted from the client", stt), "status", stt))
 				}
+			}
+		}
+	}
+
+	// a session the cookie produced stays half-authenticated unless the same
+	// request also proved something else of that user
+	if cookie != nil && o.uidBefore() == "" && cookie.Known != nil && cookie.Known.Kind == "rm" && cookie.Status == "valid" && cookie.Known.Acct >= 0 && !faulted {
+		pid := w.Accts[cookie.Known.Acct].PID
+		row := o.RowsBefore[pid]
+		if raw, ok := hasPut(o.SessEvents, "uid"); ok && raw == pid && o.SessAfter["uid"] == pid && o.SessAfter[authboss.SessionHalfAuthKey] == "" && row != nil {
+			_, other := w.primaryCredential(o, pid)
+			if st.Kind == "recover_end" {
+				if p := o.presented("token"); p != nil && p.Known != nil && p.Known.Acct == cookie.Known.Acct && usable(p.Status) {
+					other = true
+				}
+			}
+			a := cookie.Known.Acct
+			if rc := o.presented("recovery"); rc != nil && rc.Known != nil && rc.Known.Acct == a && usable(rc.Status) {
+				other = true
+			}
+			if code := o.presented("code"); code != nil {
+				if st.Kind == "totp_validate" && totpVerdict(row.TOTPSecretKey, code.Value, o.Now) != "stale" {
+					other = true
+				}
+				if st.Kind == "sms_validate" && code.Known != nil && code.Known.Kind == "sms" && row.SMSPhone != "" && code.Known.Number == row.SMSPhone && code.Status != "superseded" {
+					other = true
+				}
+			}
+			if st.Kind == "oauth2_callback" && o.CodeUnused {
+				other = true
+			}
+			if !other {
+				out = append(out, viol("C07", "cookie_session_fully_authed", st.Kind, o,
+					fmt.Sprintf("the session of %q came from its remember cookie alone, yet after %s it carries no half-auth mark (2fa mark %q)", pid, st.Kind, o.SessAfter["twofactor"])))
+			} else {
+				w.Stats.Reach["c07_cookie_plus_credential_full_auth"]++
 			}
 		}
 	}
